@@ -84,12 +84,18 @@ func genDefaults(r *kit.Rng) (map[string][]string, map[string]int) {
 			spare[k] = 1 + r.Pick(4)
 		}
 	}
+	if len(m) == 0 && r.Chance(0.6) {
+		m = nil // nil default header map
+	}
 	return m, spare
 }
 
 // mkHeader builds the default header map; spare[k] > 0 gives k's value slice that much spare
 // capacity — what repeated -header flags produce (three values: len 3, cap 4)
 func mkHeader(m map[string][]string, spare map[string]int) http.Header {
+	if m == nil {
+		return nil // the library accepts a nil default header
+	}
 	h := http.Header{}
 	for k, vs := range m {
 		s := make([]string, len(vs), len(vs)+spare[k])
@@ -230,6 +236,7 @@ type callerLog struct {
 	exhausted int
 	late      int // results received after this caller was told ErrNoTargets
 	panicMsg  string
+	panics    int
 }
 
 // drawConcurrently: `callers` goroutines draw from one targeter until each has been told
@@ -251,7 +258,18 @@ func drawConcurrently(tr vegeta.Targeter, callers int) []callerLog {
 			l := &logs[g]
 			for l.exhausted < 3 {
 				var t vegeta.Target
-				err := tr(&t)
+				var err error
+				// a panic in one call is recorded for that call; the caller goes on drawing
+				if p, msg := kit.Recover(func() { err = tr(&t) }); p {
+					l.panicMsg = msg
+					l.panics++
+					l.results = append(l.results, "panic "+msg)
+					l.held = append(l.held, nil)
+					if l.panics > 10000 {
+						return
+					}
+					continue
+				}
 				switch {
 				case err == vegeta.ErrNoTargets:
 					l.exhausted++
@@ -335,9 +353,13 @@ func runStream(s *kit.Summary, sc *streamCase) (implLine string) {
 	var got []string
 	ex := make([]uint64, sc.Callers)
 	late := 0
+	panicReported := false
 	for g, l := range logs {
-		if l.panicMsg != "" {
-			s.Violate(kit.Violation{Kind: "targeter_panic_concurrent", What: "targeter panicked under concurrent use: " + l.panicMsg, Input: sc})
+		if l.panicMsg != "" && !panicReported {
+			panicReported = true
+			s.Violate(kit.Violation{Kind: "targeter_panic_concurrent", What: "a targeter call panicked: " + l.panicMsg, Input: sc,
+				Expected: "every call returns a target or an error", Observed: fmt.Sprintf("caller %d: %d call(s) panicked: %s", g, l.panics, l.panicMsg),
+				Key: map[string]interface{}{"format": sc.Format, "callers": sc.Callers, "nil_default_map": sc.Defaults == nil}})
 		}
 		got = append(got, l.results...)
 		ex[g] = uint64(l.exhausted)
@@ -362,6 +384,12 @@ func runStream(s *kit.Summary, sc *streamCase) (implLine string) {
 	}
 	if len(sc.SpareCap) > 0 {
 		s.Count(sc.Format + ":default_with_spare_capacity")
+	}
+	if sc.Defaults == nil {
+		s.Count(sc.Format + ":nil_default_map")
+	}
+	if sc.DefaultBody == nil {
+		s.Count(sc.Format + ":nil_default_body")
 	}
 	sort.Strings(got)
 	exp := make([]string, len(sc.Expected))
